@@ -25,7 +25,7 @@ func genC03(rng *Rng, thorough bool, emit func(*Scenario)) {
 			good := simGet(a, 0, []byte{1, 2})
 			emit(&Scenario{Tag: "faulty-port", WF: wf, RF: rf, MaxWritesPerCall: 8,
 				Replies: [][][]byte{nil, nil, nil, one(good), one(simFrame(5, []byte{0x16, 0x41})), one(simFrame(1, []byte{0x53, 0xA0})), one(good)},
-				Calls: []Call{{Kind: "ping"}, {Kind: "devid"}, {Kind: getKinds[rng.Intn(4)], Addr: a}, {Kind: "ping"}, {Kind: "devid"}, {Kind: "uint", Addr: a}, {Kind: "cmd", Cmd: 3}, {Kind: "cmd", Cmd: 8, Addr: a}}})
+				Calls:   []Call{{Kind: "ping"}, {Kind: "devid"}, {Kind: getKinds[rng.Intn(4)], Addr: a}, {Kind: "ping"}, {Kind: "devid"}, {Kind: "uint", Addr: a}, {Kind: "cmd", Cmd: 3}, {Kind: "cmd", Cmd: 8, Addr: a}}})
 		}
 	}
 	emit(&Scenario{Tag: "ping", Calls: []Call{{Kind: "ping"}}, MaxWritesPerCall: 1})
@@ -171,7 +171,7 @@ func genC04(rng *Rng, thorough bool, emit func(*Scenario)) {
 		sleep := k%2 == 0
 		sc := &Scenario{Tag: "idle-history", MaxWritesPerCall: 8,
 			Replies: [][][]byte{{first, stale}, one(simGet(addr, 0, newv))},
-			Calls: []Call{{Kind: "uint", Addr: addr, Want: "ok:0"}, {Kind: "uint", Addr: addr, Sleep: sleep}}}
+			Calls:   []Call{{Kind: "uint", Addr: addr, Want: "ok:0"}, {Kind: "uint", Addr: addr, Sleep: sleep}}}
 		if sleep {
 			sc.Tag = "idle-history-sleep"
 			sc.Calls[1].Want = "ok:" + strconv.Itoa(0x2222) // the stale frame must not be returned
@@ -254,6 +254,50 @@ func genC06(rng *Rng, thorough bool, emit func(*Scenario)) {
 				replies = append(replies, one(s))
 			}
 			emit(&Scenario{Tag: "structured-" + ck.kind, Replies: replies, Calls: []Call{{Kind: ck.kind, Cmd: ck.cmd, Addr: addr}}, MaxWritesPerCall: 8})
+		}
+	}
+	// a device that answers every request - far more than eight of them - with a well-formed frame that is
+	// never the awaited one: responses for another register, asynchronous frames, error flags for another register
+	persistent := [][]byte{simGet(addr+1, 0, []byte{0x2A, 0x00}), simGet(0xEDBC, 0, []byte{0x2A, 0x00}), simFrame(0xA, []byte{byte(addr), byte(addr >> 8), 0, 1}),
+		simGet(addr+1, 1, nil), simFrame(5, []byte{0x16, 0x41}), simFrame(1, []byte{0x53, 0xA0}), simFrame(3, nil), simFrame(4, []byte{0, 0})}
+	for _, s := range persistent {
+		for _, ck := range callKinds[:7] {
+			for _, per := range []int{1, 3} {
+				var replies [][][]byte
+				for i := 0; i < 24; i++ {
+					var cs [][]byte
+					for k := 0; k < per; k++ {
+						cs = append(cs, s)
+					}
+					replies = append(replies, cs)
+				}
+				emit(&Scenario{Tag: "persistent-" + ck.kind, Replies: replies, Calls: []Call{{Kind: ck.kind, Cmd: ck.cmd, Addr: addr}, {Kind: ck.kind, Cmd: ck.cmd, Addr: addr}}, MaxWritesPerCall: 8})
+			}
+		}
+	}
+	// an unplugged adapter: from some operation on, every Read and Flush (and possibly Write) fails with an error that is not end-of-data
+	for _, ck := range callKinds[:7] {
+		g := simGet(addr, 0, []byte{0x2A, 0x00})
+		for from := 0; from < 4; from++ {
+			for variant := 0; variant < 4; variant++ {
+				sc := &Scenario{Tag: "unplugged-" + ck.kind, MaxWritesPerCall: 8,
+					Calls: []Call{{Kind: ck.kind, Cmd: ck.cmd, Addr: addr}, {Kind: ck.kind, Cmd: ck.cmd, Addr: addr}}}
+				for i := 0; i < 16; i++ {
+					sc.Replies = append(sc.Replies, one(g))
+				}
+				for i := from; i < from+64; i++ {
+					if variant != 1 {
+						sc.RF = append(sc.RF, i)
+					}
+					if variant != 2 {
+						sc.FF = append(sc.FF, i)
+					}
+					if variant == 3 {
+						sc.WF = append(sc.WF, i)
+					}
+				}
+				emit(sc)
+			}
 		}
 	}
 	// a fault at every I/O operation index of every call kind
